@@ -14,6 +14,13 @@ fn main() {
             let seed: u64 = arg(&args, "--seed").and_then(|s| s.parse().ok()).unwrap_or(1);
             let count: usize = arg(&args, "--count").and_then(|s| s.parse().ok()).unwrap_or(1000);
             let threads: usize = arg(&args, "--threads").and_then(|s| s.parse().ok()).unwrap_or(4);
+            if let Some(f) = arg(&args, "--op-file") {
+                // re-executes the operation stored in a replay file (independent of the trace generator)
+                let doc: serde_json::Value = serde_json::from_str(&std::fs::read_to_string(&f).expect("op file")).expect("json");
+                let op: vh::transcript::Op = serde_json::from_value(doc["op"].clone()).expect("op");
+                println!("{}", serde_json::to_string_pretty(&serde_json::json!({"op": doc["op"], "output": guard(|| hex(&vh::transcript::exec(&op)))})).unwrap());
+                return;
+            }
             let ops = vh::transcript::trace(seed, count);
             if let Some(d) = arg(&args, "--dump") {
                 let i: usize = d.parse().unwrap();
